@@ -22,6 +22,16 @@ theorem upsert_like_plain_when_matched (cfg : Cfg) (now : Int) (c c1 : Coll) (fs
       = ((applyUpdateColl cfg now c (.doc fs) u false multi).2.toOption.map (fun r => (r.n, r.nModified, r.upserted.isSome))) :=
   Proofs.C13.upsert_like_plain_when_matched cfg now c c1 fs u multi q rest he hi hg hs hok
 
+/-- The same in full: with a match the two calls are equal — whole state, whole result, errors
+    included (no success hypothesis needed). -/
+theorem upsert_eq_plain_when_matched (cfg : Cfg) (now : Int) (c c1 : Coll) (fs : Fields) (u : Val)
+    (multi : Bool) (q : Val × Val) (rest : List (Val × Val))
+    (he : expire now c = .ok c1) (hi : IdInv c) (hg : GoodKeys c)
+    (hs : selectDocs (patchDT (.doc fs)) c1.docs = .ok (q :: rest)) :
+    applyUpdateColl cfg now c (.doc fs) u true multi =
+      applyUpdateColl cfg now c (.doc fs) u false multi :=
+  Proofs.C13.upsert_eq_plain_when_matched cfg now c c1 fs u multi q rest he hi hg hs
+
 /-- Without upsert nothing is ever inserted. -/
 theorem no_upsert_no_insert (cfg : Cfg) (now : Int) (c c' : Coll) (f u : Val) (multi : Bool)
     (r : UpdateResult) (h : applyUpdateColl cfg now c f u false multi = (c', .ok r)) :
@@ -84,5 +94,31 @@ example : (match applyUpdateColl {} 0
         (c'.docs.map (·.2))[1]? == some (.doc [("a", .int 2), ("c", .doc [("d", .str "x")]),
           ("_id", .oid 1000), ("e", .int 9), ("f", .bool true)])
     | _ => false) = true := by decide +kernel
+
+/-- non-vacuity: the hypotheses of `upsert_iff_no_match` and `upsert_like_plain_when_matched`
+    (expiry, non-empty, no TTL index, `IdInv`, `GoodKeys`) hold on the collection used above -/
+example : expire 0 Proofs.C13.exColl = .ok Proofs.C13.exColl ∧ Proofs.C13.exColl.docs ≠ [] ∧
+    Proofs.C13.exColl.ttlIndexes = [] ∧ IdInv Proofs.C13.exColl ∧ GoodKeys Proofs.C13.exColl :=
+  Proofs.C13.exColl_hyps
+
+/-- non-vacuity: on that collection `{a: 2}` selects nothing and `{a: 1}` selects one document -/
+example : (match selectDocs (patchDT (.doc [("a", .int 2)])) Proofs.C13.exColl.docs,
+      selectDocs (patchDT (.doc [("a", .int 1)])) Proofs.C13.exColl.docs with
+    | .ok s0, .ok s1 => s0.length == 0 && s1.length == 1
+    | _, _ => false) = true := by decide +kernel
+
+/-- non-vacuity: an upsert whose filter matches inserts nothing and reports no upserted `_id` -/
+example : (match applyUpdateColl {} 0 Proofs.C13.exColl (.doc [("a", .int 1)])
+      (.doc [("$set", .doc [("e", .int 9)]), ("$setOnInsert", .doc [("f", .bool true)])]) true false with
+    | (c', .ok r) => r.upserted.isNone && r.n == 1 && r.nModified == 1 && c'.docs.length == 1 &&
+        (c'.docs.map (·.2))[0]? == some (.doc [("_id", .int 1), ("a", .int 1), ("e", .int 9)])
+    | _ => false) = true := by decide +kernel
+
+/-- non-vacuity: a filter with an equality, an operator condition and an `$eq` satisfies the
+    hypotheses of `seed_plain_equalities`; its seed is `{a: 2, c: 7}` -/
+example : let ss : Fields := [("a", .int 2), ("b", .doc [("$gt", .int 5)]), ("c", .doc [("$eq", .int 7)])]
+    (ss.all (fun kv => !kv.1.toList.contains '.' && !kv.1.startsWith "$") &&
+      decide ((dkeys ss).Nodup) &&
+      (discardOps (.doc ss)).1 == .doc [("a", .int 2), ("c", .int 7)]) = true := by decide +kernel
 
 end MongoModel.Props.C13
